@@ -84,6 +84,10 @@ impl ExtensionsMap {
 
         let mut st = iter.next();
         while let Some(subtag) = st {
+            if subtag.len() > 1 {
+                // an extension must start with a one-character singleton
+                return Err(ParserError::InvalidSubtag);
+            }
             match subtag.first().map(|b| ExtensionType::from_byte(*b)) {
                 Some(Ok(ExtensionType::Unicode)) => {
                     result.unicode = UnicodeExtensionList::try_from_iter(iter)?;
